@@ -170,17 +170,24 @@ def main():
                 gc.collect()
                 o["outcome"] = "done"
             elif kind == "cache_clear":
-                _porcelain.cachable_tensor_method.cache_clear()
-                methods.clear()
-                o["outcome"] = "done"
+                fn = getattr(_porcelain, "cachable_tensor_method", None)
+                clr = getattr(fn, "cache_clear", None) or getattr(fn, "clear", None)
+                if callable(clr):
+                    clr()
+                    methods.clear()
+                    o["outcome"] = "done"
+                else:
+                    o["outcome"] = "unavailable"
             elif kind == "evict":
                 # flood the LRU kernel cache with throw-away problems
                 for k in range(rq["n"]):
                     flood[0] += 1
                     tensor_method(f"z{flood[0]}(i) = q{flood[0]}(i)", {f"z{flood[0]}": "d", f"q{flood[0]}": "d"})
-                info = _porcelain.cachable_tensor_method.cache_info()
                 o["outcome"] = "done"
-                o["cache_size"] = info.currsize
+                try:
+                    o["cache_size"] = _porcelain.cachable_tensor_method.cache_info().currsize
+                except Exception:
+                    o["cache_size"] = 128  # not an lru_cache any more: size unknown
                 methods_alive = len(methods)
                 o["methods_tracked"] = methods_alive
         except BaseException as e:  # a harness problem, not an observation
